@@ -536,6 +536,14 @@ def r05_10(chk, P):
                 continue
             r = F.ex[F.strip_casts(nd['c'][1])]
             l = F.ex[F.strip_casts(nd['c'][0])]
+            if l['k'] == 'un' and l['op'] == '*':
+                # *p with p = &table[i] (single definition): the slot itself
+                pn_ = F.ex[F.strip_casts(l['c'][0])]
+                if pn_['k'] == 'ref' and pn_['decl'].get('kind') == 'var':
+                    d_ = common.single_defs(F).get(pn_['decl'].get('id'))
+                    dn_ = F.ex[F.strip_casts(d_)] if d_ is not None else None
+                    if dn_ is not None and dn_['k'] == 'un' and dn_['op'] == '&':
+                        l = F.ex[F.strip_casts(dn_['c'][0])]
             if r['k'] == 'un' and r['op'] == '&' and l['k'] == 'sub':
                 m = F.ex[F.strip_casts(r['c'][0])]
                 b = F.ex[F.strip_casts(l['c'][0])]
